@@ -13,6 +13,7 @@ Avail0 == Base \cup {"single"}   \* "single": m has not been split into a multi-
 C(r, u, k, g) == r @@ [uses |-> u, kills |-> k, gives |-> g]
 
 HeadC(n_) == C([op |-> "head", n |-> n_], {}, {}, {})
+HeadX(f_, cmp_, k_, n_, nul_, keeplast_) == C([op |-> "headx", f |-> f_, cmp |-> cmp_, k |-> k_, n |-> n_, nul |-> nul_, keeplast |-> keeplast_], {f_}, {}, {})
 TailC(n_) == C([op |-> "tail", n |-> n_], {}, {}, {})
 Dedup(fs_, lim_, consec_, keepempty_) == C([op |-> "dedup", fs |-> fs_, lim |-> lim_, consec |-> consec_, keepempty |-> keepempty_], ToSet(fs_), {}, {})
 Sort(f_, asc_, lim_) == C([op |-> "sort", f |-> f_, asc |-> asc_, lim |-> lim_], {f_}, {}, {})
@@ -45,7 +46,10 @@ NoNestedAgg(ch) == Cardinality({i \in DOMAIN ch : ch[i].op \in {"top", "rare", "
 Valid(ch) == ValidFrom(ch, 1, Avail0) /\ NoNestedAgg(ch)
 
 (* ---- command instances ---- *)
-Streaming == {HeadC(1), HeadC(2), Dedup(<<"a">>, 1, FALSE, FALSE), Dedup(<<"b">>, 1, FALSE, TRUE), Dedup(<<"a">>, 2, FALSE, FALSE),
+(* head with an expression: limit-governed (a<3 always holds for a in 1..2), expression-governed (a<2), null handling (b>0) *)
+HeadXs == {HeadX("a", "lt", 3, 2, FALSE, FALSE), HeadX("a", "lt", 4, 2, FALSE, TRUE), HeadX("a", "lt", 2, 3, FALSE, FALSE), HeadX("a", "lt", 2, 2, FALSE, TRUE),
+           HeadX("b", "gt", 0, 3, FALSE, FALSE), HeadX("b", "gt", 0, 2, TRUE, FALSE), HeadX("b", "gt", 0, 3, FALSE, TRUE), HeadX("b", "gt", 1, 3, TRUE, TRUE)}
+Streaming == {HeadC(1), HeadC(2), HeadX("a", "lt", 4, 2, FALSE, FALSE), HeadX("b", "gt", 0, 2, TRUE, TRUE), Dedup(<<"a">>, 1, FALSE, FALSE), Dedup(<<"b">>, 1, FALSE, TRUE), Dedup(<<"a">>, 2, FALSE, FALSE),
               Dedup(<<"a">>, 1, TRUE, FALSE), Dedup(<<"a", "b">>, 1, FALSE, FALSE),
               Where("a", 1), Where("b", 1), FieldsKeep({"a"}), FieldsDrop({"b"}), Rename("a", "z"), Fillnull(0, {"b"}),
               EvalAdd("d", "a", "b"), EvalAddK("d", "a", 1), EvalIf("d", "b", 1, "a", "b"), Bin("a", 2), Makemv("m"),
@@ -61,12 +65,16 @@ Later == {Where("n", 1), Where("d", 2), Sort("d", TRUE, 0), Sort("n", FALSE, 0),
 
 Cmds == Streaming \cup Blocking
 CmdsAll == Cmds \cup SSWindow \cup SSRoc
-Singles == {<<c>> : c \in Cmds}
+Singles == {<<c>> : c \in Cmds \cup HeadXs}
+(* the two-pass commands once more, alone and behind a streaming command, for the configuration with three distinct
+   values of `a` and four rows: a later batch can then extend what the first pass has learnt at both ends *)
+TwoPassChains == {<<Bin2("a")>>, <<Fillnull(0, {})>>, <<Where("b", 0), Bin2("a")>>, <<HeadC(3), Bin2("a")>>, <<Bin2("a"), TailC(2)>>,
+                  <<HeadX("a", "lt", 4, 3, FALSE, FALSE)>>, <<HeadX("b", "gt", 0, 3, TRUE, TRUE)>>}
 SinglesSS == {<<c>> : c \in SSWindow \cup SSRoc}
 Pairs == {ch \in {<<c1, c2>> : c1 \in CmdsAll, c2 \in CmdsAll \cup Later} : Valid(ch)}
 PairsNoSS == {ch \in {<<c1, c2>> : c1 \in Cmds, c2 \in Cmds \cup Later} : Valid(ch)}
 (* a hand-picked core for chains of three: one of each protocol class (streaming with state, bottleneck, two-pass, transforming) *)
-Core == {HeadC(2), Dedup(<<"a">>, 1, FALSE, FALSE), Where("b", 1), EvalAdd("d", "a", "b"), SS("count", "", "a", 0, FALSE, "n"),
+Core == {HeadC(2), HeadX("a", "lt", 4, 2, FALSE, FALSE), Dedup(<<"a">>, 1, FALSE, FALSE), Where("b", 1), EvalAdd("d", "a", "b"), SS("count", "", "a", 0, FALSE, "n"),
          TailC(2), Sort("a", TRUE, 0), Fillnull(0, {}), Bin2("a"), Stats("count", "", "a"), Top("a", 0)}
 Triples == {ch \in {<<c1, c2, c3>> : c1 \in Core, c2 \in Core, c3 \in Core \cup {Where("n", 1), Sort("cnt", FALSE, 0)}} : Valid(ch)}
 
@@ -76,6 +84,7 @@ RowsFull == {Row(x, y) : x \in 1..3, y \in {1, 2, NULL}}
 RowsMid == {Row(1, 1), Row(1, 2), Row(2, 2), Row(2, NULL), Row(3, 1)}
 RowsSmall == {Row(1, 1), Row(2, 2), Row(1, NULL)}
 RowsTiny == {Row(1, 1), Row(2, NULL)}
+RowsABC == {Row(1, 1), Row(2, NULL), Row(3, 2)}     \* three distinct values of a
 BoolBoth == {TRUE, FALSE}
 BoolF == {FALSE}
 =============================================================================
